@@ -35,7 +35,7 @@ def run(chk):
     rng = random.Random(chk.seed)
     wd = chk.workdir("gen")
     dump = os.path.join(wd, "w.dump")
-    chk.tlc("laws+gen", "MC_C17", "MC_C17.cfg", wd=wd, args=["-dump", dump])
+    chk.tlc("laws+gen", "MC_C17", "MC_C17_full.cfg" if chk.tier == "thorough" else "MC_C17.cfg", wd=wd, args=["-dump", dump], timeout=3000)
     states = [st for st in tlaval.parse_states(open(dump).read()) if st["kind"] != "init"]
     os.remove(dump)
     if len(states) < 20000:
@@ -139,6 +139,10 @@ def run(chk):
              "dimensions) each executed in up to three call styles; distinct by state; non-trivial = some entry converts; plus random "
              "five-parameter signatures on the bundled registry",
         exhaustive=True)
+
+
+def _unused():
+    pass
 
 
 def count_mismatch(chk, ureg):
